@@ -804,7 +804,16 @@ func (m *Machine) iterNext(fr *frame, it Value, instr *ssa.Next) Value {
 			return Tuple{falseT, K(64, 0), K(32, 0)}
 		}
 		if !it.s.IsConcrete() {
-			unsupportedf("range over symbolic string")
+			// decode with the real utf8 code, symbolically (forks on the byte classes)
+			sp := m.P.byPath["unicode/utf8"]
+			if sp == nil || sp.Func("DecodeRuneInString") == nil {
+				unsupportedf("range over symbolic string (utf8 not loaded)")
+			}
+			res := m.call(fr, token.NoPos, sp.Func("DecodeRuneInString"), []Value{it.s.Sub(it.i, it.s.Len())}).(Tuple)
+			w := m.concreteInt(res[1], "rune width")
+			idx := it.i
+			it.i += w
+			return Tuple{trueT, K(64, uint64(idx)), res[0]}
 		}
 		c := it.s.Concrete()
 		r, w := utf8.DecodeRuneInString(c[it.i:])
